@@ -505,6 +505,8 @@ EXTRA_DECLS = [
     ("thread-local", "_Thread_local int tl1; static _Thread_local int tl2 = 2;"),
     ("noreturn-inline", "static inline int in1(int x) { return x; } _Noreturn void nr1(void);"),
     ("atomic", "_Atomic int at1; _Atomic(int) at2; int * _Atomic at3; _Atomic(int *) at4;"),
+    ("atomic-derived-multi", "_Atomic(int *) at5, at6, *at7; struct AT { _Atomic(int *) h, t; const _Atomic(char *) u, v[2]; } at8; typedef _Atomic(int (*)(void)) AF1, AF2; AF2 at9;"),
+    ("atomic-derived-multi-quals", "const _Atomic(int *) at10 = 0, at11 = 0; _Atomic(const int *) at12, at13; int atf(void) { at12 = 0; at13 = 0; return sizeof(at11) + sizeof(at13); }"),
     ("const-ptr-chain", "const int * const * volatile cp1;"),
     ("extern-array", "extern int ea1[]; int ea1[5];"),
     ("kr-def", "int kr1(x, y) int x; char y; { return x + y; }"),
